@@ -78,6 +78,11 @@ def encode (m : Msg) : Bytes :=
   | .contact _ => magic ++ u8 4 ++ m.body
   | _ => u8 m.type ++ m.body
 
+/-- the octet stream of a message sequence -/
+def encodeAll : List Msg → Bytes
+  | [] => []
+  | m :: ms => encode m ++ encodeAll ms
+
 /-- Values fit their fixed-width fields (what `struct.pack` accepts) and the extension list is
     only present with START. -/
 def Msg.WF : Msg → Prop
